@@ -56,7 +56,8 @@ def parse(path):
                 cur.sends.append((int(tk[1]), tk[2], int(tk[3]), int(tk[4]), int(tk[5]), int(tk[6])))
             elif k == "D":
                 n = int(tk[5])
-                cur.deliveries.append((int(tk[1]), int(tk[2]), int(tk[3]), int(tk[4]), [int(x) for x in tk[6:6 + n]]))
+                src = int(tk[6 + n][1:]) if len(tk) > 6 + n and tk[6 + n].startswith("s") else 0
+                cur.deliveries.append((int(tk[1]), int(tk[2]), int(tk[3]), int(tk[4]), [int(x) for x in tk[6:6 + n]], src))
             elif k == "T":
                 cur.timers.append((tk[1], int(tk[2]), int(tk[3]), int(tk[4]), tk[5]))
             elif k == "R":
